@@ -218,6 +218,8 @@ def install(I):
     def vstore(frame, st, p, v, what, aligned):
         n = 16
         v = asvec(v)
+        if T.ENABLED and v.term is not None:
+            v = Vec(v.ty, [AInt(8, x.lo, x.hi, x.kz, x.ko, term=T.slice_(v.term, 8 * j, 8)) for j, x in enumerate(v.b)], v.term)
         kind = locate(st, p, n)
         if kind[0] == 'raw':
             I.obligation(frame, 'simd-store-bounds', what, 0, True, 'store into constant memory')
